@@ -450,7 +450,9 @@ impl Array {
                         let child = &self.children[i];
                         {
                             match child.delta.take() {
-                                Some(x) => child.delta.set(Some(&x + &delta)),
+                                Some(x) => child
+                                    .delta
+                                    .set(Some(&x + &delta.flatten_to(&child.dimensions))),
                                 None => child.delta.set(Some(delta.flatten_to(&child.dimensions))),
                             }
                         }
